@@ -19,6 +19,7 @@ var Harnesses = map[string]func(){
 	"verifh/hparse.SchemaLimit":       hparse.SchemaLimit,
 	"verifh/hval.Smoke":               hval.Smoke,
 	"verifh/hval.ValidateRef":         hval.ValidateRef,
+	"verifh/hval.Deterministic":       hval.Deterministic,
 	"verifh/hval.SchemaReadOnly":      hval.SchemaReadOnly,
 	"verifh/hval.SplitGapSelfTest":    hval.SplitGapSelfTest,
 	"verifh/hval.FrozenWriteSelfTest": hval.FrozenWriteSelfTest,
